@@ -23,13 +23,14 @@ VARIABLES l,        \* next line
           thash,    \* node -> set of bundles the node's echo broadcast knows
           tsent,    \* set of <<from, bundle, to>> observed sends
           texpect,  \* sends the echo rule requires
-          tfin      \* node -> observed group (+ completion window)
+          tfin,     \* node -> observed group (+ completion window)
+          twins     \* key set tag -> index map observed in an earlier ceremony over the same keys
 
-tvars == <<vars, l, alarms, scen, tprop, tst, tseen, thash, tsent, texpect, tfin>>
+tvars == <<vars, l, alarms, scen, tprop, tst, tseen, thash, tsent, texpect, tfin, twins>>
 
 NoScen == [scenario |-> "none", class |-> "none", epoch |-> 0, nodes |-> <<>>, join |-> <<>>, remain |-> <<>>,
            leave |-> <<>>, leader |-> 0, thr |-> 0, period |-> 1, genesis |-> 0, rank |-> <<>>, late |-> <<>>,
-           prevSeed |-> "none", scheme |-> ""]
+           prevSeed |-> "none", scheme |-> "", twin |-> ""]
 
 Has(e, f) == f \in DOMAIN e
 
@@ -54,6 +55,7 @@ TraceInit ==
   /\ Init
   /\ l = 1 /\ alarms = {} /\ scen = NoScen /\ tprop = NoTerms
   /\ tst = EmptyFn /\ tseen = EmptyFn /\ thash = EmptyFn /\ tsent = {} /\ texpect = {} /\ tfin = EmptyFn
+  /\ twins = EmptyFn
 
 StepReset(e) ==
   /\ e.ev = "Reset"
@@ -66,7 +68,7 @@ StepReset(e) ==
      /\ tseen' = [n \in ns |-> {}]
      /\ thash' = [n \in ns |-> {}]
   /\ tsent' = {} /\ texpect' = {} /\ tfin' = EmptyFn
-  /\ alarms' = alarms
+  /\ alarms' = alarms /\ twins' = twins
 
 \* ---- operator commands
 StepCmd(e) ==
@@ -86,7 +88,7 @@ StepCmd(e) ==
         /\ tst' = [tst EXCEPT ![n] = e.st]
         /\ tseen' = IF e.st = expSt /\ e.st # pre THEN [tseen EXCEPT ![n] = @ \cup pid] ELSE tseen
         /\ tprop' = tprop
-  /\ UNCHANGED <<scen, thash, tsent, texpect, tfin>>
+  /\ UNCHANGED <<scen, thash, tsent, texpect, tfin, twins>>
 
 \* ---- Process.Packet
 StepG(e) ==
@@ -106,7 +108,7 @@ StepG(e) ==
      IN /\ alarms' = alarms \cup A0 \cup A1 \cup A2 \cup A3
         /\ tst' = [tst EXCEPT ![to] = IF Has(e, "st") THEN e.st ELSE IF r.ok THEN r.st ELSE @]
         /\ tseen' = IF e.ok THEN [tseen EXCEPT ![to] = @ \cup {pid}] ELSE tseen
-  /\ UNCHANGED <<scen, tprop, thash, tsent, texpect, tfin>>
+  /\ UNCHANGED <<scen, tprop, thash, tsent, texpect, tfin, twins>>
 
 HasBoard(n) == tst[n] \in {"Executing", "Done", "Failed"}
 
@@ -126,7 +128,7 @@ StepBSend(e) ==
         /\ thash' = IF own THEN [thash EXCEPT ![e.from] = @ \cup {b}] ELSE thash
         /\ texpect' = IF own /\ e.from \notin SLate
                         THEN texpect \cup {<<e.from, b, x>> : x \in SParts \ {e.from}} ELSE texpect
-  /\ UNCHANGED <<scen, tprop, tst, tseen, tfin>>
+  /\ UNCHANGED <<scen, tprop, tst, tseen, tfin, twins>>
 
 \* ---- echoBroadcast.BroadcastDKG
 StepB(e) ==
@@ -142,7 +144,7 @@ StepB(e) ==
         \* every NEW bundle is re-sent once to everybody else
         /\ texpect' = IF e.ok /\ ~e.known /\ e.after /\ to \notin SLate
                         THEN texpect \cup {<<to, b, x>> : x \in SParts \ {to}} ELSE texpect
-  /\ UNCHANGED <<scen, tprop, tst, tseen, tsent, tfin>>
+  /\ UNCHANGED <<scen, tprop, tst, tseen, tsent, tfin, twins>>
 
 \* ---- completion
 ObsGroup(e) == [members |-> Range(e.members), thr |-> e.thr, period |-> e.period, genesis |-> e.genesis,
@@ -156,7 +158,7 @@ StepComplete(e) ==
   /\ e.ev = "Complete"
   /\ IF Has(e, "broken")
        THEN /\ alarms' = alarms \cup {Alarm("OwnIndex", e, "finished state without group or share", "", "")}
-            /\ UNCHANGED <<tfin, tst>>
+            /\ UNCHANGED <<tfin, tst, twins>>
        ELSE
        LET n == e.n
            g == ObsGroup(e)
@@ -170,10 +172,12 @@ StepComplete(e) ==
            C4 == If({m[1] : m \in g.members} # SParts \ SLate, Conf(e, "QUAL differs from the black-box prediction"))
            C5 == If(e.ncoef # e.thr \/ e.scheme # scen.scheme \/ e.epoch # scen.epoch, Conf(e, "public polynomial degree / scheme / epoch"))
            \* monitors
-           M1 == If(~OwnIndex(n, g.members, e.shareIdx, SParts, SRank),
-                    {Alarm("OwnIndex", e, "the node is not a member of its own group at the index of its share (= rank of its key)", "", "")})
-           M2 == If(~OrderIndependent(g.members, SParts, SRank),
-                    {Alarm("OrderIndependent", e, "member indices are not the positions of the keys in sorted order", "", "")})
+           C6 == If(~IndexIsRank(g.members, SParts, SRank), Conf(e, "member indices are not the positions of the keys in sorted order"))
+           M1 == If(~OwnIndex(n, g.members, e.shareIdx),
+                    {Alarm("OwnIndex", e, "the node is not a member of its own group at the index of its share", "", "")})
+           hasTwin == scen.twin \in DOMAIN twins
+           M2 == If(hasTwin /\ ~OrderIndependent(g.members, twins[scen.twin]),
+                    {Alarm("OrderIndependent", e, "the same keys listed in another order got other indices", "", "")})
            M3 == If(~e.onPoly, {Alarm("ShareOnPoly", e, "share.V*G differs from the group's public polynomial at the share index", "", "")})
            M4 == UNION {
                    {Alarm("SameGroup", e, "nodes hold different groups", f,
@@ -182,16 +186,18 @@ StepComplete(e) ==
                             ELSE "none")
                       : f \in DiffFields(g, tfin[a].g)}
                    : a \in DOMAIN tfin}
-       IN /\ alarms' = alarms \cup C1 \cup C2 \cup C3 \cup C4 \cup C5 \cup M1 \cup M2 \cup M3 \cup M4
+       IN /\ alarms' = alarms \cup C1 \cup C2 \cup C3 \cup C4 \cup C5 \cup C6 \cup M1 \cup M2 \cup M3 \cup M4
           /\ tfin' = [x \in (DOMAIN tfin) \cup {n} |-> IF x = n THEN [g |-> g, explained |-> explained] ELSE tfin[x]]
           /\ tst' = [tst EXCEPT ![n] = "Done"]
+          /\ twins' = IF hasTwin THEN twins
+                       ELSE [x \in (DOMAIN twins) \cup {scen.twin} |-> IF x = scen.twin THEN g.members ELSE twins[x]]
   /\ UNCHANGED <<scen, tprop, tseen, thash, tsent, texpect>>
 
 StepFail(e) ==
   /\ e.ev = "Fail"
   /\ alarms' = alarms \cup If(e.n \notin SLate, Conf(e, "a node that is not late failed"))
   /\ tst' = [tst EXCEPT ![e.n] = "Failed"]
-  /\ UNCHANGED <<scen, tprop, tseen, thash, tsent, texpect, tfin>>
+  /\ UNCHANGED <<scen, tprop, tseen, thash, tsent, texpect, tfin, twins>>
 
 StepEnd(e) ==
   /\ e.ev = "End"
@@ -203,11 +209,11 @@ StepEnd(e) ==
          M5 == If(~e.signs \/ ~e.partialsOk,
                   {Alarm("ThresholdSigns", e, "a threshold subset of the shares does not produce a signature valid under the group key", "", "")})
      IN alarms' = alarms \cup A0 \cup A1 \cup A2 \cup A3 \cup M5
-  /\ UNCHANGED <<scen, tprop, tst, tseen, thash, tsent, texpect, tfin>>
+  /\ UNCHANGED <<scen, tprop, tst, tseen, thash, tsent, texpect, tfin, twins>>
 
 StepOther(e) ==
   /\ e.ev \in {"Start", "Tick", "Skip", "CmdRet"}
-  /\ UNCHANGED <<alarms, scen, tprop, tst, tseen, thash, tsent, texpect, tfin>>
+  /\ UNCHANGED <<alarms, scen, tprop, tst, tseen, thash, tsent, texpect, tfin, twins>>
 
 TraceNext ==
   /\ l <= Len(TraceLog)
